@@ -61,6 +61,7 @@ fn strat_from(v: &Value, seed: u64) -> Strat {
     }
     s.tick_phase = v.get("tick_phase").and_then(|x| x.as_u64()).unwrap_or(0) as u32;
     s.tick_after = v.get("tick_after").and_then(|x| x.as_u64()).unwrap_or(40) as u32;
+    s.freeze_kind = v.get("freeze_kind").and_then(|x| x.as_u64()).unwrap_or(0) as u32;
     s.lockspin_all = v.get("lockspin_all").and_then(|x| x.as_u64()).unwrap_or(0) == 1;
     s.max_steps = v.get("max_steps").and_then(|x| x.as_u64()).unwrap_or(100_000);
     s
